@@ -509,7 +509,7 @@ func evalC19Replay(rp *C19Replay) *c19Eval {
 
 func shrinkC19(rp *C19Replay) (*C19Replay, string) {
 	target := rp.Clause
-	budget := 80
+	budget := 120
 	deadline := time.Now().Add(40 * time.Second)
 	fails := func(c *C19Replay) bool {
 		if budget <= 0 || time.Now().After(deadline) {
@@ -539,33 +539,42 @@ func shrinkC19(rp *C19Replay) (*C19Replay, string) {
 			i++
 		}
 	}
-	// 2. drop whole tasks (from the end, so that the remaining task ids keep their meaning)
-	for len(cur.Tasks) > 1 {
-		last := len(cur.Tasks) - 1
-		c := &C19Replay{Tasks: cur.Tasks[:last], Clause: target}
+	// 2. drop whole tasks (any position; the remaining task ids are renumbered in the schedule)
+	for k := len(cur.Tasks) - 1; k >= 0 && len(cur.Tasks) > 1; k-- {
+		if k >= len(cur.Tasks) {
+			continue
+		}
+		c := &C19Replay{Clause: target}
+		c.Tasks = append(append([]C19Task{}, cur.Tasks[:k]...), cur.Tasks[k+1:]...)
 		for _, d := range cur.Sched {
-			if d.From != last && d.To != last {
-				c.Sched = append(c.Sched, d)
+			if d.From == k || d.To == k {
+				continue
 			}
+			if d.From > k {
+				d.From--
+			}
+			if d.To > k {
+				d.To--
+			}
+			c.Sched = append(c.Sched, d)
 		}
 		if fails(c) {
 			cur = c
 			steps++
-		} else {
-			break
 		}
 	}
-	// 3. drop trailing calls of each task
+	// 3. drop single calls (any position; preemption indices of that task lose their meaning,
+	// the candidate is kept only if the same clause still fails)
 	for ti := range cur.Tasks {
-		for len(cur.Tasks[ti].Calls) > 1 {
+		for ci := len(cur.Tasks[ti].Calls) - 1; ci >= 0 && len(cur.Tasks[ti].Calls) > 1; ci-- {
 			c := &C19Replay{Sched: cur.Sched, Clause: target}
 			c.Tasks = append([]C19Task{}, cur.Tasks...)
-			c.Tasks[ti].Calls = c.Tasks[ti].Calls[:len(c.Tasks[ti].Calls)-1]
+			calls := append([]*Call{}, cur.Tasks[ti].Calls[:ci]...)
+			calls = append(calls, cur.Tasks[ti].Calls[ci+1:]...)
+			c.Tasks[ti].Calls = calls
 			if fails(c) {
 				cur = c
 				steps++
-			} else {
-				break
 			}
 		}
 	}
